@@ -279,7 +279,146 @@ fn run_par_case(c: &ParCase) -> Result<bool, String> {
     Ok(repeated && c.threads >= 2 && c.items.len() >= 40)
 }
 
+/* ------------------------------- size hints ------------------------------- */
+
+/// a deserializer that hands out `pairs` (as a map) or their keys (as a sequence) and reports
+/// whatever size hint the case says: a hint is only a hint (length-prefixed formats report the
+/// prefix they read, which a corrupt input can make arbitrarily wrong)
+struct Hinted {
+    pairs: Vec<(u32, u32)>,
+    hint: Option<usize>,
+    pos: usize,
+}
+impl<'de> serde::Deserializer<'de> for Hinted {
+    type Error = serde::de::value::Error;
+    fn deserialize_any<V: serde::de::Visitor<'de>>(self, v: V) -> Result<V::Value, Self::Error> {
+        v.visit_map(self)
+    }
+    fn deserialize_seq<V: serde::de::Visitor<'de>>(self, v: V) -> Result<V::Value, Self::Error> {
+        v.visit_seq(self)
+    }
+    serde::forward_to_deserialize_any! { bool i8 i16 i32 i64 u8 u16 u32 u64 f32 f64 char str string bytes byte_buf option unit unit_struct newtype_struct tuple tuple_struct map struct enum identifier ignored_any }
+}
+impl<'de> serde::de::MapAccess<'de> for Hinted {
+    type Error = serde::de::value::Error;
+    fn next_key_seed<K: serde::de::DeserializeSeed<'de>>(&mut self, seed: K) -> Result<Option<K::Value>, Self::Error> {
+        use serde::de::IntoDeserializer;
+        match self.pairs.get(self.pos) {
+            Some((k, _)) => seed.deserialize((*k).into_deserializer()).map(Some),
+            None => Ok(None),
+        }
+    }
+    fn next_value_seed<V: serde::de::DeserializeSeed<'de>>(&mut self, seed: V) -> Result<V::Value, Self::Error> {
+        use serde::de::IntoDeserializer;
+        let v = self.pairs[self.pos].1;
+        self.pos += 1;
+        seed.deserialize(v.into_deserializer())
+    }
+    fn size_hint(&self) -> Option<usize> {
+        self.hint
+    }
+}
+impl<'de> serde::de::SeqAccess<'de> for Hinted {
+    type Error = serde::de::value::Error;
+    fn next_element_seed<T: serde::de::DeserializeSeed<'de>>(&mut self, seed: T) -> Result<Option<T::Value>, Self::Error> {
+        use serde::de::IntoDeserializer;
+        match self.pairs.get(self.pos) {
+            Some((k, _)) => {
+                self.pos += 1;
+                seed.deserialize((*k).into_deserializer()).map(Some)
+            }
+            None => Ok(None),
+        }
+    }
+    fn size_hint(&self) -> Option<usize> {
+        self.hint
+    }
+}
+
+#[derive(Clone, Debug, Serialize, Deserialize)]
+pub struct HintCase {
+    pub hmode: HMode,
+    pub pairs: Vec<(u32, u32)>,
+    /// None, or the hint reported for the map / the sequence
+    pub hint: Option<u64>,
+    /// only the set is deserialised (hints for which the MAP visitor of the unchanged crate would
+    /// pre-allocate gigabytes are only given to the set visitor, and only in one process)
+    pub set_only: bool,
+}
+
+fn hint_strategy() -> impl Strategy<Value = HintCase> {
+    let kv = (0u32..40, 0u32..1000);
+    (hmode_strategy(), proptest::collection::vec(kv, 0..30), 0u8..10, 0u64..50_000).prop_map(|(hmode, pairs, kind, r)| {
+        let n = pairs.len() as u64;
+        let distinct = pairs.iter().map(|p| p.0).collect::<BTreeSet<u32>>().len() as u64;
+        let hint = match kind {
+            0 => None,
+            1 | 2 => Some(n),
+            3 => Some(distinct),
+            4 => Some(0),
+            5 => Some(n / 2),
+            6 => Some(n + 1 + r % 7),
+            7 => Some(2 * n + 100),
+            _ => Some(r),
+        };
+        HintCase { hmode, pairs, hint, set_only: false }
+    })
+}
+
+/// hints that no well-behaved format reports but a corrupt length prefix can
+const WILD_HINTS: [u64; 8] = [u64::MAX, u64::MAX - 1, u64::MAX / 2, (u64::MAX / 8) + 1, 1 << 61, 1 << 62, (1 << 63) + 5, u64::MAX / 3];
+
+fn run_hint_case(c: &HintCase) -> Result<bool, String> {
+    set_default_hmode(c.hmode);
+    let hint = c.hint.map(|h| h as usize);
+    let mut supplied: BTreeMap<u32, Vec<u32>> = BTreeMap::new();
+    for (k, v) in &c.pairs {
+        supplied.entry(*k).or_default().push(*v);
+    }
+    if !c.set_only {
+        let d = Hinted { pairs: c.pairs.clone(), hint, pos: 0 };
+        let r = catch_unwind(AssertUnwindSafe(|| UM::deserialize(d))).map_err(|_| format!("deserialising a map of {} entries from a deserializer reporting size_hint {:?} panicked", c.pairs.len(), hint))?;
+        let m = r.map_err(|e| format!("a well-formed map input with size_hint {:?} was refused: {}", hint, e))?;
+        let got = dump_um(&m);
+        if got.len() != supplied.len() || m.len() != supplied.len() {
+            return Err(format!("map input with size_hint {:?}: {} entries, {} distinct keys were supplied", hint, got.len(), supplied.len()));
+        }
+        for (k, v) in &got {
+            if !supplied.get(k).map_or(false, |vs| vs.contains(v)) {
+                return Err(format!("map input with size_hint {:?}: key {} maps to {}, supplied values {:?}", hint, k, v, supplied.get(k)));
+            }
+        }
+    }
+    let d = Hinted { pairs: c.pairs.clone(), hint, pos: 0 };
+    let r = catch_unwind(AssertUnwindSafe(|| US::deserialize(d))).map_err(|_| format!("deserialising a set of {} elements from a deserializer reporting size_hint {:?} panicked", c.pairs.len(), hint))?;
+    let s = r.map_err(|e| format!("a well-formed sequence with size_hint {:?} was refused: {}", hint, e))?;
+    let got: BTreeSet<u32> = {
+        let g = s.guard();
+        s.iter(&g).copied().collect()
+    };
+    if got != supplied.keys().copied().collect::<BTreeSet<u32>>() || s.len() != supplied.len() {
+        return Err(format!("sequence with size_hint {:?} gave the set {:?}, supplied {:?}", hint, got, supplied.keys().collect::<Vec<_>>()));
+    }
+    Ok(hint.map_or(false, |h| h != supplied.len()))
+}
+
 fn c19_shard(ctx: &Ctx, out: &mut ShardOut) {
+    drive(ctx, "hint", ctx.shard_seed(3), ctx.share(ctx.by_tier(8_000, 120_000)) as u32, hint_strategy(), out, |c| {
+        let nt = run_hint_case(c).map_err(|m| CaseFail { prop: "C19".into(), msg: format!("[C19] {}", m) })?;
+        Ok(CaseInfo { nontrivial: nt, classes: vec![("hinted_inputs", 1), ("hinted_inputs_whose_hint_differs_from_the_number_of_distinct_keys", nt as u64)], evaluations: 1, sub_hashes: vec![] })
+    });
+    if ctx.shard == 0 {
+        for (i, h) in WILD_HINTS.iter().enumerate() {
+            let c = HintCase { hmode: HMode::Mix, pairs: (0..(i as u32 % 4)).map(|j| (j % 2, j)).collect(), hint: Some(*h), set_only: true };
+            ctx.mark_inflight("hint", &serde_json::to_string(&c).unwrap());
+            out.evaluations += 1;
+            out.class("wild_size_hints_given_to_the_set_visitor", 1);
+            if let Err(m) = run_hint_case(&c) {
+                out.violations.push(Viol { prop: "C19".into(), msg: format!("[C19] {}", m), replay: serde_json::json!({"sub": "hint", "case": c}) });
+                break;
+            }
+        }
+    }
     drive(ctx, "doc", ctx.shard_seed(1), ctx.share(ctx.by_tier(40_000, 600_000)) as u32, doc_strategy(), out, |c| {
         let i = run_doc_case(c).map_err(|m| CaseFail { prop: "C19".into(), msg: format!("[C19] {}", m) })?;
         Ok(CaseInfo { nontrivial: i.repeated_key && i.valid, classes: vec![("documents_repeating_a_key", i.repeated_key as u64), ("documents_well_formed", i.valid as u64), ("documents_malformed_or_ill_typed", (!i.valid) as u64)], evaluations: 1, sub_hashes: vec![] })
@@ -293,6 +432,10 @@ fn c19_shard(ctx: &Ctx, out: &mut ShardOut) {
 fn c19_replay(sub: &str, case: &Value) -> Result<(), CaseFail> {
     let bad = |e: serde_json::Error| CaseFail { prop: "C19".into(), msg: format!("bad replay file: {}", e) };
     match sub {
+        "hint" => {
+            let c: HintCase = serde_json::from_value(case.clone()).map_err(bad)?;
+            run_hint_case(&c).map(|_| ()).map_err(|m| CaseFail { prop: "C19".into(), msg: format!("[C19] {}", m) })
+        }
         "par" => {
             let c: ParCase = serde_json::from_value(case.clone()).map_err(bad)?;
             run_par_case(&c).map(|_| ()).map_err(|m| CaseFail { prop: "C19".into(), msg: format!("[C19] {}", m) })
@@ -308,7 +451,7 @@ pub fn defs() -> Vec<PropDef> {
     vec![PropDef {
         id: "C19",
         level: "exploration",
-        rule: "(serde) JSON objects generated from a grammar over a 10-key alphabet (empty key, escapes, multi-byte) with repetitions, ill-typed values, truncation, trailing garbage and arrays; deserialisation into HashMap<String,u32> runs under catch_unwind and must return a value or an error; a well-formed document must give exactly the supplied key set with each key mapped to one of its supplied values, serialise->deserialise (map and pinned reference, all hashers through a Default wrapper) must give an equal map, and a MapDeserializer with exact size hint the same key set; the key list as an array for sets likewise; (rayon) item multisets collected / par_extend-ed (owned map, &map, pinned reference; maps and sets) on pools of 1-8 threads must give the sequential key set with each key mapped to one of the values supplied for it; non-trivial = a well-formed document that repeats a key, or a parallel run on >= 2 threads with >= 40 items and a key supplied more than once; distinct = hash of the case",
+        rule: "(serde) JSON objects generated from a grammar over a 10-key alphabet (empty key, escapes, multi-byte) with repetitions, ill-typed values, truncation, trailing garbage and arrays; deserialisation into HashMap<String,u32> runs under catch_unwind and must return a value or an error; a well-formed document must give exactly the supplied key set with each key mapped to one of its supplied values, serialise->deserialise (map and pinned reference, all hashers through a Default wrapper) must give an equal map, and a MapDeserializer with exact size hint the same key set; deserializers reporting generated size hints (absent, exact, number of distinct keys, 0, too small, too large, arbitrary up to 50000; eight wild hints up to usize::MAX for the set visitor) must give the sequential result without panicking; the key list as an array for sets likewise; (rayon) item multisets collected / par_extend-ed (owned map, &map, pinned reference; maps and sets) on pools of 1-8 threads must give the sequential key set with each key mapped to one of the values supplied for it; non-trivial = a well-formed document that repeats a key, or a parallel run on >= 2 threads with >= 40 items and a key supplied more than once; distinct = hash of the case",
         assumptions: &["serde_json is the only data format exercised", "rayon scheduling is not controlled: each parallel case is one sample of it"],
         run_shard: c19_shard,
         replay: c19_replay,
